@@ -75,7 +75,7 @@ def make_image(rnd, g, ns, nf):
 class C11(object):
     id = "C11"
     engine = "simomp"
-    tiers = {"quick": {"runs": 6000, "budget_s": 60, "selftest_every": 40, "fresh_selftest": 10},
+    tiers = {"quick": {"runs": 14000, "budget_s": 60, "selftest_every": 40, "fresh_selftest": 10},
              "thorough": {"runs": 1500000, "budget_s": 800, "selftest_every": 300, "fresh_selftest": 20}}
     rule = ("one run = (image 2x2..64x64 incl. checkerboards/spirals/combs/isolated grids, threshold possibly equal to "
             "a pixel value) through dense(8), dense(4), sparse and splat kernels under (team, strategy, interleaving, "
